@@ -10,7 +10,7 @@
                                      InstallPackages(ctx, EPOCH, allPkgs)                  locked_install_epoch
                        else:         FixateWorld(ctx, EPOCH)                               unlocked_install_epoch
      ResolveWithBase:                for resolved { for base { if COND { inBase = true } } ; if !inBase { toInstall += resolved } }
-     InstallPackages (hand-written): a package whose NAME is already installed is skipped (isInstalledPackage(pkg.PackageName())) *)
+     InstallPackages:                ok := isInstalledPackage(ARG); if ok { continue }     install_skip_arg, is_installed_test *)
 From Apko Require Import Base.Prelude Base.C09Lib Generated.C09Build.
 Open Scope string_scope. Open Scope list_scope.
 
@@ -38,6 +38,10 @@ Definition in_base (base : list bpkg) (r : bpkg) : bool :=
 (* what ResolveWithBase hands on, i.e. what the lock file lists *)
 Definition lock_listed (base resolved : list bpkg) : list bpkg := filter (fun r => negb (in_base base r)) resolved.
 (* InstallPackages on an image that already holds [installed] *)
-Definition name_installed (installed : list bpkg) (p : bpkg) : bool := existsb (fun q => String.eqb (bp_name q) (bp_name p)) installed.
+(* `ok := a.isInstalledPackage(ARG); if ok { continue }`: ARG (install_skip_arg, e.g. pkg.PackageName()) and the test of
+   isInstalledPackage (is_installed_test) are read from the source; PackageName() of an installable package is its name *)
+Definition skip_key (p : bpkg) : string := glookup install_skip_arg [("PackageName()", bp_name p); ("Name", bp_name p); ("ChecksumString()", bp_checksum p)].
+Definition name_installed (installed : list bpkg) (p : bpkg) : bool :=
+  existsb (fun q => geval [("arg", skip_key p); ("installed.Name", bp_name q); ("installed.ChecksumString()", bp_checksum q)] is_installed_test) installed.
 Definition install_on (installed listed : list bpkg) : list bpkg :=
   fold_left (fun inst p => if name_installed inst p then inst else inst ++ [p]) listed installed.
